@@ -17,10 +17,11 @@ logging.disable(logging.CRITICAL)
 warnings.simplefilter("ignore")
 
 from traits.api import (  # noqa: E402
-    Any, Dict, Either, HasTraits, Instance, Int, Interface, List, Property, Set, Supports, TraitError, TraitType,
+    Any, Dict, Either, HasTraits, Instance, Int, Interface, List, Property, PrototypedFrom, Set, Supports, TraitError,
+    TraitType,
     Tuple,
     cached_property, provides, push_exception_handler, register_factory)
-from traits.observation.api import match  # noqa: E402
+from traits.observation.api import match, trait  # noqa: E402
 
 push_exception_handler(handler=lambda *a: None, reraise_exceptions=False, main=True)
 
@@ -144,6 +145,10 @@ class Part(HasTraits):
     w = VW(0)
 
 
+class ProtoD(HasTraits):        # the prototype object of the PrototypedFrom trait `pv` (opaque ops SetPV / SetDPV / DelPV)
+    pv = V()
+
+
 class A(HasTraits):
     x = V()
     t = Tuple(V(), V())
@@ -160,6 +165,9 @@ class A(HasTraits):
     ad2 = Instance(IProto, adapt="default")
     ade = Either(Supports(IProto), Instance(Q))   # adaptation as one alternative of a compound (opaque op SetAdE)
     w = Int(0)                                    # synchronised with two partner objects (opaque ops SetW / SetPW)
+    deleg = Instance(ProtoD)
+    pv = PrototypedFrom("deleg")                  # validated by the prototype's trait; a listener forwards its changes
+    q = Int(0)                                    # never assigned: first graph of the two-graph observer expression
     _log = Any()
 
     dp = Property(Int, depends_on="x")      # legacy cached property: outside the model, read into the aux digest
@@ -227,7 +235,12 @@ def make():
     def obs_z(ev):
         handler_body(a, 6, int(ev.name[2:]), ev.new)
 
+    def dyn_pv(obj, name, old, new):
+        handler_body(a, 9, old, new)
+
     a.on_trait_change(dyn, "x")
+    a.deleg = ProtoD(pv=1)
+    a.on_trait_change(dyn_pv, "pv")
     a.observe(obs_x, "x")
     a.observe(obs_l, "l:items")
     pb, pc = Part(), Part()
@@ -236,11 +249,23 @@ def make():
     a.sync_trait("w", pb, mutual=True)
     a.sync_trait("w", pc, mutual=True)
     a.on_trait_change(lambda: None, "dp")     # a listener, so that a change of x recomputes dp for the notification
-    a.__dict__["_vf"] = (obs_z, match(flt))   # the filtered observer of the opaque operations
+    # the observer expression of ObsAdd / ObsRemove has two parallel graphs: a named trait first (its registration
+    # succeeds or is removed before the user filter of the second graph is called, so a raising filter leaves
+    # something to undo in apply_observers), then the filtered one
+    a.__dict__["_vf"] = (obs_z, trait("q") | match(flt))
     a.__dict__["_vz"] = 0
-    a.observe(obs_z, match(flt))
+    a.observe(obs_z, a.__dict__["_vf"][1])
     del a._log[:]
     return a
+
+
+def _is_filter_graph(g):
+    """The maintainer graph of the filtered observer (not the one of the named trait `q`)."""
+    while g is not None:
+        if type(g.node).__name__ == "FilteredTraitObserver":
+            return True
+        g = g.children[0] if g.children else None
+    return False
 
 
 def obs_count(a):
@@ -251,7 +276,7 @@ def obs_count(a):
     for n in a._trait("trait_added", 2)._notifiers(False) or []:
         if getattr(n, "graph", None) is not None:
             hh = n.handler() if callable(n.handler) else n.handler
-            if hh is h:
+            if hh is h and _is_filter_graph(n.graph):
                 cnt += 1
     return cnt
 
@@ -272,7 +297,10 @@ def reg(a):
     sizes = [len(a._trait("x", 2)._notifiers(False) or []), len(a._notifiers(False) or []), len(a.l.notifiers),
              len(a.d.notifiers), len(a.s.notifiers), len(a._trait("l", 2)._notifiers(False) or []),
              len(a._trait("l_items", 2)._notifiers(False) or []), len(a._trait("c", 2)._notifiers(False) or []),
-             len(a._trait("trait_added", 2)._notifiers(False) or [])]
+             len(a._trait("trait_added", 2)._notifiers(False) or []),
+             len(a._trait("q", 2)._notifiers(False) or []),
+             len(a._trait("pv", 2)._notifiers(False) or []),
+             len(a.deleg._trait("pv", 2)._notifiers(False) or [])]
     for i in range(a.__dict__["_vz"]):
         sizes.append(len(a._trait("zz%d" % i, 2)._notifiers(False) or []))
     h = 0
@@ -286,6 +314,7 @@ def aux(a):
     vals = [num(a.dp)] + [num(a.__dict__.get("zz%d" % i, 0)) for i in range(a.__dict__["_vz"])]
     vals += [num(a.w), num(a.__dict__["_parts"][1].w)]        # not the first partner: its own validator may have refused
     vals.append(-5 if a.ade is None else num(getattr(a.ade, "v", -7)))
+    vals += [num(a.pv), num(a.deleg.pv), num(a.__dict__.get("pv", -3))]
     h = 0
     for v in vals:
         h = (h * 1000003 + v + 7) % (2 ** 55)
@@ -356,6 +385,12 @@ def execute(a, op, echo):
         a.w = op[1]
     elif k == "SetPW":
         a.__dict__["_parts"][1].w = op[2]      # always on the second partner: the first one's validator is the faulty one
+    elif k == "SetPV":
+        a.pv = val(op[1])
+    elif k == "SetDPV":
+        a.deleg.pv = val(op[1])
+    elif k == "DelPV":
+        del a.pv
     elif k == "SetXQ":
         a.trait_setq(x=val(op[1]))
     elif k == "ObsRemove":
